@@ -215,11 +215,25 @@ func FoldStep(b Base, e *expr.Expression, s string, err error) bool {
 	return s == fs && (err == nil) == (ferr == nil)
 }
 
+// SimpleOperand: operands that are rendered without parentheses - nothing, a plain
+// value, a column, or a single term.
+func SimpleOperand(in any) bool {
+	switch v := in.(type) {
+	case nil:
+		return true
+	case *expr.Expression:
+		return v.Op == expr.Undefined || expr.LeafOp(v.Op)
+	case expr.Column, string, int, float64:
+		return true
+	}
+	return false
+}
+
 //@ func (Base).isSimple
 //@   props C03 C15
 //@   pure
 //@   requires NotTypedNil(in)
-//@   ensures true
+//@   ensures[simple-operands] result == SimpleOperand(in)
 
 //@ func (Base).Render
 //@   props C15 C10 C13 C01 C03
